@@ -1100,3 +1100,29 @@ impl VConnection {
         got
     }
 }
+
+/// Delivery-tags currently in a receiver's unsettled map and its (link-credit, delivery-count, drain)
+pub fn receiver_unsettled_and_flow(receiver: &crate::link::Receiver) -> (Vec<Vec<u8>>, (u32, u32, bool)) {
+    let link = &receiver.inner.link;
+    let tags = link
+        .unsettled
+        .read()
+        .as_ref()
+        .map(|m| m.keys().map(|k| k.to_vec()).collect())
+        .unwrap_or_default();
+    let fs = &link.flow_state;
+    let g = fs.lock.read();
+    (tags, (g.link_credit, g.delivery_count, g.drain))
+}
+
+/// Delivery-tags currently in a sender's unsettled map
+pub fn sender_unsettled_tags(sender: &crate::link::Sender) -> Vec<Vec<u8>> {
+    sender
+        .inner
+        .link
+        .unsettled
+        .read()
+        .as_ref()
+        .map(|m| m.keys().map(|k| k.to_vec()).collect())
+        .unwrap_or_default()
+}
